@@ -1,5 +1,6 @@
 import EpdVerif.Table
 import EpdVerif.Scenario
+import EpdVerif.Pure
 /-!
 # epdmodel — runs the Lean model on scenario lines and compares it with the harness trace
 
@@ -73,6 +74,24 @@ partial def loop (hs ht : IO.FS.Handle) (f : Feat) (n drift : Nat) : IO (Nat × 
     loop hs ht f (n + 1) (drift + 1)
   | .ok sc => do
     let block ← readBlock ht #[]
+    if sc.panel == "pure" then
+      let xs := block.toList.filter (·.startsWith "X ")
+      let mut bad : Option String := none
+      let mut k := 0
+      for op in sc.ops do
+        let want := s!"X {k} {pureOp op}"
+        let got := xs.getD k "<missing>"
+        if bad.isNone && want ≠ got then
+          bad := some s!"op={k} ({op.head!}) model=[{(want.take 300).toString}] impl=[{(got.take 300).toString}]"
+        k := k + 1
+      match bad with
+      | none =>
+        IO.println s!"C {sc.id} same"
+        loop hs ht f (n + 1) drift
+      | some d =>
+        IO.println s!"C {sc.id} drift {d}"
+        loop hs ht f (n + 1) (drift + 1)
+    else
     match findPanel f sc.panel, sc.ops.mapM parseOp, parseBlock block with
     | none, _, _ => do
       IO.println s!"X {sc.id} unknown panel {sc.panel}"
